@@ -237,7 +237,7 @@ HARNESSES = [
       desc='DW_OP_WASM_location with any kind byte > 3 is rejected with DWARFError'),
     H('h12_3_names', h_names, lambda tier: [dict()], expect=('ok',),
       desc='DW_OP_name2opcode injective on operation names, DW_OP_opcode2name its inverse, reference opcodes named and consistent with the registry (ground obligations)'),
-    H('h12_4_pairs', h_pairs, _pair_instances, expect=('ok',),
+    H('h12_4_pairs', h_pairs, _pair_instances, decoy=24, expect=('ok',),
       desc='ordered pairs of operations, one representative per operand class, symbolic operand values'),
     H('h12_6_envs', h_envs, _env_instances, expect=('ok',),
       desc='one expression skeleton with environment-dependent operands inside nested entry_value blocks (call_ref, addr, implicit_pointer, const4u), '
